@@ -520,9 +520,28 @@ fn cmd_buffers(args: &[String]) {
             }
         }
     }
+    // PASSWORD-ALGORITHMS lists with parameter blocks of every length modulo 4 in every position (the
+    // only attribute with padding inside its value), whatever the seed draws below
+    let shapes: Vec<Vec<usize>> = vec![vec![1, 2, 3], vec![3, 0, 1], vec![2, 2], vec![0, 1, 0, 3, 2], vec![5, 6, 7, 4], vec![1]];
+    let fixed_msg = |shape: &[usize]| -> (stun_rs::StunMessage, Value) {
+        use stun_rs::attributes::stun::{PasswordAlgorithm, PasswordAlgorithms};
+        use stun_rs::{Algorithm, AlgorithmId};
+        let mut l = PasswordAlgorithms::default();
+        for (i, n) in shape.iter().enumerate() {
+            let params: Vec<u8> = (0..*n).map(|j| (0xD0 + i * 16 + j) as u8).collect();
+            let id_ = if i % 2 == 0 { AlgorithmId::MD5 } else { AlgorithmId::SHA256 };
+            l.add(PasswordAlgorithm::new(if *n == 0 { Algorithm::new(id_, None) } else { Algorithm::new(id_, params.as_slice()) }));
+        }
+        let attr: stun_rs::StunAttribute = l.into();
+        let logical = json!([zoo::project(&attr)]);
+        let msg = stun_rs::StunMessageBuilder::new(stun_rs::methods::BINDING, stun_rs::MessageClass::Request)
+            .with_transaction_id(stun_rs::TransactionId::from(id)).with_attribute(attr).build();
+        (msg, logical)
+    };
     // messages made of every attribute kind (nested encoders, inner padding, post-encode hooks)
-    for _ in 0..small {
-        let Some((msg, logical)) = zoo_msg(&mut rng, id) else { continue };
+    for k in 0..small + 3 * shapes.len() {
+        // each fixed shape once per encoder context
+        let Some((msg, logical)) = (if k < 3 * shapes.len() { Some(fixed_msg(&shapes[k / 3])) } else { zoo_msg(&mut rng, id) }) else { continue };
         let ctx = (nmsg % 3) as u8;
         let enc = mk_encoder(ctx);
         let mut bigbuf = vec![0x5Au8; 9000];
